@@ -368,6 +368,8 @@ def lean_lines(op):
         return ["op\tload\t" + ("-" if op[1] is None else str(op[1]))]
     if n in ("autosave", "autobuild", "autonotify"):
         return [f"op\t{n}\t{'T' if op[1] else 'F'}"]
+    if n == "setwatcher":
+        return []  # set_watcher changes no flag and no policy: no model step
     if n == "setstore":
         return ["\t".join(["setstore", enc_rules(op[1].get("p", [])), enc_rules(op[1].get("g", [])), enc_rules(op[1].get("g2", []))])]
     # RBAC API wrappers = compositions of management calls
@@ -460,6 +462,8 @@ def impl_call(e, op, is_async):
             return call("load_policy")
         finally:
             e.adapter.fail_after = None
+    if n == "setwatcher":
+        return e.set_watcher(e.watcher)  # re-attach the (same) watcher: must not change any flag
     if n == "setstore":
         e.adapter.store = {k: [list(r) for r in v] for k, v in op[1].items()}
         return None
@@ -639,7 +643,7 @@ def compare_history(res, cfg, hist, impl, answers, idx, queries, judge):
         parts = answers[a:b]
         if any(p == "bad-op" for p in parts):
             raise common.Infra(f"driver answered bad-op for {op}")
-        rets, acalls, wcalls = [], [], []
+        rets, acalls, wcalls = ([] if parts else ["-"]), [], []
         for p in parts:
             body = p[len("model="):]
             r, ac, wc = body.split("#")
